@@ -8,7 +8,7 @@ import re
 from .. import AnalysisError, rx, flow
 from ..fold import is_unknown
 from ..srcmodel import walk_local, norm, dotted, guards
-from . import common
+from . import common, forward
 from .c12 import anchored_calls
 
 META = {
@@ -20,7 +20,7 @@ META = {
         "used, keys are applied left to right with list.sort(reverse=rev) - a "
         "stable primitive - and the container is only permuted in place. "
         "Sign arithmetic of the direction-aware orders is not decided."),
-    'families': ['TBL', 'RX-ANCHOR', 'SIB', 'PERM'],
+    'families': ['TBL', 'RX-ANCHOR', 'SIB', 'PERM', 'FORWARD', 'DEADPARAM', 'SIB-DEFAULTS'],
 }
 
 
@@ -91,6 +91,7 @@ def check(ctx):
 
     ctx.attempt(_defaults, fi, env)
     ctx.attempt(_perm, fi)
+    ctx.attempt(forward.check_all, module_suffixes=('containers.containers',))
 
 
 def _defaults(ctx, fi, env):
